@@ -4,10 +4,11 @@ go 1.21
 
 require (
 	github.com/0chain/common v0.0.0
+	github.com/anishathalye/porcupine v1.3.0
 	github.com/fxamacker/cbor/v2 v2.7.0
 	github.com/linxGnu/grocksdb v1.8.0
-	github.com/anishathalye/porcupine v1.3.0
 	github.com/shopspring/decimal v1.3.1
+	github.com/tinylib/msgp v1.1.6
 	go.uber.org/zap v1.21.0
 	golang.org/x/crypto v0.7.0
 )
@@ -26,7 +27,6 @@ require (
 	github.com/spf13/pflag v1.0.5 // indirect
 	github.com/spf13/viper v1.12.0 // indirect
 	github.com/subosito/gotenv v1.3.0 // indirect
-	github.com/tinylib/msgp v1.1.6 // indirect
 	github.com/x448/float16 v0.8.4 // indirect
 	go.uber.org/atomic v1.7.0 // indirect
 	go.uber.org/multierr v1.6.0 // indirect
